@@ -27,7 +27,9 @@ MANIFEST = dict(
 ROWS = [
     [0.90, 0.05, 0.05], [0.05, 0.90, 0.05], [0.05, 0.05, 0.90],
     [0.40, 0.40, 0.20], [1 / 3, 1 / 3, 1 / 3], [0.60, 4.0e-5, 0.40 - 4.0e-5],
+    [0.0, 0.0, 1.0],            # a frame in which only the blank is possible (used by the extra sweep 'with_blank_row' only)
 ]
+NR = 6                          # rows of the main sweep
 LETTERS = ['a', 'b', '<BLANK>']
 LMS = [0, 1, 2]
 SCALES = [0.0, 0.5, 1.0, 3.0]
@@ -60,10 +62,12 @@ def shards(tier):
             if t <= 2:
                 out.append({'T': t, 'lm': lm, 'prefix': []})
             else:
-                for p in itertools.product(range(len(ROWS)), repeat=t - 2):
+                for p in itertools.product(range(NR), repeat=t - 2):
                     out.append({'T': t, 'lm': lm, 'prefix': list(p)})
     for lm in LMS:
         out.append({'factory': lm})
+        for t in range(1, T):       # lines with blank-only frames (incl. lines on which nothing but the blank is possible), one frame shorter
+            out.append({'T': t, 'lm': lm, 'with_blank_row': True})
     return out
 
 
@@ -75,8 +79,13 @@ def run_shard(shard, ctx, tier):
         for si, bi, ki in itertools.product(range(len(SCALES)), range(len(BONUS)), range(len(KS))):
             guarded_check(mod, {'factory': shard['factory'], 'cfg': [si, bi, ki]}, ctx)
         return
+    if shard.get('with_blank_row'):
+        for rows in itertools.product(range(len(ROWS)), repeat=shard['T']):
+            if NR in rows:
+                guarded_check(mod, {'rows': list(rows), 'lm': shard['lm']}, ctx)
+        return
     T, prefix = shard['T'], shard['prefix']
-    for rest in itertools.product(range(len(ROWS)), repeat=T - len(prefix)):
+    for rest in itertools.product(range(NR), repeat=T - len(prefix)):
         guarded_check(mod, {'rows': prefix + list(rest), 'lm': shard['lm']}, ctx)
 
 
@@ -141,6 +150,33 @@ def check_factory(case, ctx):
                               f'[DECODER] LM_SCALE={scale} INSERTION_BONUS={bonus} BEAM_SIZE={k} LM={lm}: matrix {[ROWS[i] for i in rows]} decodes to '
                               f'{h1} / {b1.best_hyp()!r} (weight {b1.lm_weight}); the decoder constructed with these values gives {h2} / {b2.best_hyp()!r}')
                 return
+    # the page-level entry point decode_page() hands on, for every line label, exactly the decoder's best hypothesis - here with a character
+    # set that holds the space, so that hypotheses beginning or ending with white space take part
+    from scipy import sparse
+    sp_letters = [' ', 'b']
+    dsp = CTCPrefixLogRawNumpyDecoder(sp_letters + [LETTERS[-1]], k, lm=stubs.make_lm_wrapper(lm, sp_letters), lm_scale=scale, insertion_bonus=bonus)
+    dref = CTCPrefixLogRawNumpyDecoder(sp_letters + [LETTERS[-1]], k, lm=stubs.make_lm_wrapper(lm, sp_letters), lm_scale=scale, insertion_bonus=bonus)
+    page, labels = [{}, {}], []
+    for T in (1, 2):
+        for rows in itertools.product(range(NR), repeat=T):
+            lab = 'l' + ''.join(map(str, rows))
+            page[len(labels) % 2][lab] = sparse.csc_matrix(np.log(np.asarray([ROWS[i] for i in rows], dtype=float)))
+            labels.append((lab, rows))
+    with contextlib.redirect_stdout(io.StringIO()):
+        got = decoding_itf.decode_page(page, dsp)
+    ctx.executed(len(labels))
+    for lab, rows in labels:
+        par = labels.index((lab, rows)) % 2          # (the lines were dealt out to two paragraphs)
+        want = dref(decoding_itf.prepare_dense_logits(page[par][lab])).best_hyp()
+        have = got[par].get(lab) if par < len(got) else None
+        ctx.executed()
+        if have != want:
+            ctx.violation('result-maximises-fused-score', f'{ID}/decode_page/not-the-best-hypothesis',
+                          f'LM {lm}, scale {scale}, bonus {bonus}, k {k}, characters {sp_letters}: decode_page hands on {have!r} for the line with '
+                          f'matrix {[ROWS[i] for i in rows]}; the decoder\'s best hypothesis is {want!r}')
+            return
+        if want != want.strip():
+            ctx.tag('best-hypothesis-begins-or-ends-with-a-space')
     ctx.outcome(('factory', scale, bonus, k))
 
 
@@ -177,7 +213,7 @@ def check_case(case, ctx):
         if len(rows) <= 2:
             d2 = CTCPrefixLogRawNumpyDecoder(LETTERS, k, lm=w, lm_scale=scale, insertion_bonus=bonus)
             with np.errstate(divide='ignore'):
-                other = np.log(np.asarray([ROWS[(i + 2) % len(ROWS)] for i in rows] + [ROWS[0]], dtype=float))
+                other = np.log(np.asarray([ROWS[(i + 2) % NR] for i in rows] + [ROWS[0]], dtype=float))
                 empty = np.log(np.asarray([[0.0, 0.0, 1.0]] * 2))           # a line on which only the blank is possible
             d2(other.copy(), model_eos=eos, return_h=True, init_h=(None if init == 'default' else h0))
             d2(empty.copy(), model_eos=eos, return_h=True, init_h=(None if init == 'default' else h0))
@@ -326,5 +362,5 @@ def describe(tier):
         'assumptions': ['LM vocabulary == decoder letters (the decoder indexes LM columns by letter index)',
                         'arg-max clauses are skipped when the two best fused scores are within 1e-9'],
         'min_nontrivial': 100,
-        'required_tags': ['re-weighted-bag-changes-the-winner', 'decoder-built-from-configuration', 'tie-handled-consistently', 'decoder-reused-for-another-line', 'lm-changes-the-winner', 'scale-changes-the-winner', 'scale-zero-cases', 'beam-pruned'],
+        'required_tags': ['best-hypothesis-begins-or-ends-with-a-space', 're-weighted-bag-changes-the-winner', 'decoder-built-from-configuration', 'tie-handled-consistently', 'decoder-reused-for-another-line', 'lm-changes-the-winner', 'scale-changes-the-winner', 'scale-zero-cases', 'beam-pruned'],
     }
